@@ -14,6 +14,25 @@ def _handler(signum, frame):
     raise Watchdog()
 
 
+LAST_WHERE = ""
+
+
+def _where(exc):
+    """Innermost frame inside the package under test at the moment the
+    watchdog fired: 'function:source line' (used in violation signatures, so
+    that one slow spot does not hide another)."""
+    import linecache
+
+    tb, found = exc.__traceback__, ""
+    while tb is not None:
+        co = tb.tb_frame.f_code
+        if "wikitextprocessor" in co.co_filename:
+            line = linecache.getline(co.co_filename, tb.tb_lineno).strip()
+            found = f"{co.co_name}:{line}"[:80]
+        tb = tb.tb_next
+    return found
+
+
 def call(fn, timeout_s, *a, **kw):
     """Returns (status, value, elapsed): status in ok / exc / timeout."""
     old = signal.signal(signal.SIGALRM, _handler)
@@ -29,8 +48,10 @@ def call(fn, timeout_s, *a, **kw):
             done = True
             signal.setitimer(signal.ITIMER_REAL, 0)
             return "ok", v, time.time() - t0
-        except Watchdog:
+        except Watchdog as w:
             signal.setitimer(signal.ITIMER_REAL, 0)
+            global LAST_WHERE
+            LAST_WHERE = _where(w)
             if done:
                 # the alarm went off between the return of fn and the
                 # disarming of the timer: fn did finish
